@@ -293,22 +293,121 @@ def worker(task):
     return C.rec
 
 
+# ------------------------------------------------------------------------------------------------
+# end-to-end: advertised nested keywords reach the nested object (not spied), in every order of first uses
+# ------------------------------------------------------------------------------------------------
+EFFECT_SRC = '''
+@spec_class
+class PBase:
+    colour: str = "c"
+    limit: int = 10
+
+@spec_class(key="name")
+class PSub(PBase):
+    name: str
+    size: int = 0
+    limit: int = 20          # re-annotated: PSub owns `limit` now
+
+@spec_class
+class Host2:
+    base: PBase
+    sub: PSub
+    kids: List[PSub] = []
+    lookup: Dict[str, PSub] = {}
+'''
+
+
+def _st(o):
+    return None if o is None else tuple(sorted((k, v) for k, v in vars(o).items() if not k.startswith("_")))
+
+
+EFFECT_OPS = {
+    # name: (call, observation, expected)
+    "with_base_kw": (lambda ns, h: h.with_base(colour="x", limit=3), lambda r: _st(r.base), (("colour", "x"), ("limit", 3))),
+    "with_sub_kw": (lambda ns, h: h.with_sub(name="n", size=2, colour="y", limit=7), lambda r: _st(r.sub),
+                    (("colour", "y"), ("limit", 7), ("name", "n"), ("size", 2))),
+    "with_sub_dict_plus_kw": (lambda ns, h: h.with_sub({"size": 3}, name="k"), lambda r: _st(r.sub),
+                              (("colour", "c"), ("limit", 20), ("name", "k"), ("size", 3))),
+    "update_sub_dict_plus_kw": (lambda ns, h: h.update_sub({"size": 5}, name="u"), lambda r: _st(r.sub),
+                                (("colour", "c"), ("limit", 20), ("name", "u"), ("size", 5))),
+    "with_kid_kw": (lambda ns, h: h.with_kid(name="a", size=1, limit=8), lambda r: _st(r.kids[-1]),
+                    (("colour", "c"), ("limit", 8), ("name", "a"), ("size", 1))),
+    "with_kid_dict_plus_kw": (lambda ns, h: h.with_kid({"size": 4}, name="z"), lambda r: _st(r.kids[-1]),
+                              (("colour", "c"), ("limit", 20), ("name", "z"), ("size", 4))),
+    "with_lookup_item_kw": (lambda ns, h: h.with_lookup_item("q", name="q", size=6), lambda r: _st(r.lookup["q"]),
+                            (("colour", "c"), ("limit", 20), ("name", "q"), ("size", 6))),
+    "ctor_sub_kw": (lambda ns, h: ns["PSub"](name="m", limit=77, colour="z", size=9), lambda r: _st(r),
+                    (("colour", "z"), ("limit", 77), ("name", "m"), ("size", 9))),
+    "ctor_base_kw": (lambda ns, h: ns["PBase"](limit=5, colour="w"), lambda r: _st(r), (("colour", "w"), ("limit", 5))),
+}
+
+
+def effect_case(order, out):
+    ns = {"__name__": "verif_c17_effects"}
+    exec(compile(G.PRELUDE, "<c17-prelude>", "exec", dont_inherit=True), ns)
+    exec(compile(EFFECT_SRC, "<c17-effects>", "exec", dont_inherit=True), ns)
+    ok = True
+    for i, name in enumerate(order):
+        call, obs, want = EFFECT_OPS[name]
+        h = ns["Host2"]()
+        try:
+            got = obs(call(ns, h))
+        except Exception as e:
+            got = ("raised", type(e).__name__, str(e)[:80])
+        if got != want:
+            out.append(violation(PROP, {"part": "effects", "kind": "advertised_keyword_did_not_reach_the_nested_object", "call": name, "position": i,
+                                        "first": order[0], "raised": got[1] if got and got[0] == "raised" else None},
+                                 {"expected": repr(want), "got": repr(got), "order": list(order)}, {"part": "effects", "order": list(order)}))
+            ok = False
+    return ok
+
+
+def effects_worker(task):
+    C = Counter()
+    for order in task["orders"]:
+        out = []
+        ok = effect_case(order, out)
+        C.inc("states")
+        C.inc("transitions", len(order))
+        C.inc("evaluations", len(order))
+        for v in out:
+            C.viol(v)
+        if ok:
+            C.inc("traces_validated_against_impl", len(order))
+            C.nontrivial(tuple(order))
+    C.sample({"part": "effects", "order": list(task["orders"][0])})
+    return C.rec
+
+
 def run_case(case):
+    if case.get("part") == "effects":
+        out = []
+        effect_case(tuple(case["order"]), out)
+        return out
     sub = worker(case["task"])
     return [v for v in sub["violations"] if v["case"]["method"] == case["method"] and v["case"].get("how") == case.get("how")
             and v["case"].get("passed") == case.get("passed") and v["case"].get("keyword") == case.get("keyword")]
+
+
+def dispatch(task):
+    return effects_worker(task) if task.get("effects") else worker(task)
 
 
 def main(run):
     quick = run.tier == "quick"
     recs = G.quick_family() if quick else G.full_family()
     tasks = [{"rec": r} for r in recs] + [{"host": True}]
-    for rec in pmap(worker, tasks):
+    names = sorted(EFFECT_OPS)
+    orders = [o for r in ((1, 2) if quick else (1, 2, 3)) for o in itertools.permutations(names, r)]
+    tasks += [{"effects": True, "orders": orders[i:i + 40]} for i in range(0, len(orders), 40)]
+    for rec in pmap(dispatch, tasks):
         run.merge(rec)
     run.add(rule=(
         "per class x per generated method (constructor, update/transform/reset, 4 scalar + 4 element helpers per attribute): every single "
         "advertised parameter and every pair by keyword, every prefix of positional-or-keyword parameters positionally, one positional too many, "
-        "6 unadvertised names on the real method, nested-keyword correspondence; states = classes, transitions = calls"
+        "6 unadvertised names on the real method, nested-keyword correspondence; states = classes, transitions = calls; plus, unspied: 9 calls "
+        "passing nested keywords (alone, or with a dict of constructor arguments) to nested / element / subclass constructors in every order of "
+        "<= 2/3 first uses on fresh classes, judged by the attribute values of the object built"
     ))
     run.assumptions += [
         "the generated wrapper calls a module-global named `implementation` (spied); a signature ending in **<overflow> advertises arbitrary keywords",
